@@ -342,7 +342,8 @@ class SearchGen:
                 if rng.random() < 0.2:
                     val = "~" + val
                 pairs.append("%s=%s" % (k, val))
-            s += "?" + "&".join(pairs)
+            # '?' is also accepted as the separator of query pairs (a second query appended to a pending one)
+            s += "?" + ("?" if rng.random() < 0.15 else "&").join(pairs)
         return s
 
 
